@@ -10,6 +10,7 @@ SYMS = {
     "d": ([46], 46), "p": ([43], 43), "1": ([49], 49), "t": ([9], 9), "m": ([13], 13),
     "w": ([115], 115), "j": ([107], 107), "f": ([0xC5, 0xBF], 0x17F), "g": ([0xE2, 0x84, 0xAA], 0x212A), "W": ([83], 83),
     "v": ([0xE2, 0x85, 0xB7], 0x2177), "V": ([0xE2, 0x85, 0xA7], 0x2167),
+    "u": ([0xA9], 0xFFFD),
     "G": ([0xCE, 0xB1], 0x3B1), "J": ([0xF0, 0x9F, 0x98, 0x80], 0x1F600), "T": ([0xC3], 0xFFFD), "O": ([0xCE, 0xA9], 0x3A9),
 }
 
